@@ -50,6 +50,7 @@ func runC01(c *Ctx) {
 	nilListIsNullOnly(c)
 	layoutAgreement(c)
 	adapterWritesOnError(c)
+	directiveArgAssertChecked(c)
 }
 
 // c01SelectionsPrivate: the merged sub-selection of a collected field is a slice private to that CollectFields call.  Fields
